@@ -7,7 +7,15 @@ if [ ! -f .deps/z3/__init__.py ]; then
   PIP_NO_INDEX=1 /venv/bin/pip install --quiet --no-index --find-links /opt/veriftools/wheels --target .deps z3-solver >/dev/null 2>&1 \
    || /venv/bin/python -m pip install --quiet --no-index --find-links /opt/veriftools/wheels --target .deps z3-solver
 fi
+if [ ! -d .deps/cvc5 ]; then
+  # second-opinion solver (optional: checks run without it and say so in the evidence)
+  PIP_NO_INDEX=1 /venv/bin/pip install --quiet --no-index --find-links /opt/veriftools/wheels --target .deps cvc5 >/dev/null 2>&1 || true
+fi
 /venv/bin/python - <<'PY'
 import sys; sys.path.insert(0,'/verif/.deps')
 import z3; print("z3",z3.get_version_string())
+try:
+    import cvc5; print("cvc5", cvc5.__version__)
+except Exception as e:
+    print("cvc5 not available:", e)
 PY
